@@ -29,6 +29,10 @@ class XPathArray(XPathFunction):
     pattern = r'(?<!\$)\barray(?=\s*(?:\(\:.*\:\))?\s*\{(?!\:))'
     _array: Optional[list[ta.ValueType]] = None
 
+    @property
+    def arity(self) -> int:
+        return 1  # a map or an array is a function of its key or position
+
     def __init__(self, parser: ta.XPathParserType,
                  items: Optional[Iterable[Any]] = None) -> None:
         if items is not None:
